@@ -5,6 +5,8 @@ package verifharness
 // projection of the implementation state that spec/ChfSeqTrace.tla judges.
 
 import (
+	"sort"
+	"crypto/sha1"
 	"bufio"
 	"encoding/json"
 	"fmt"
@@ -235,9 +237,22 @@ func (d *SeqDriver) runOne(b *Behaviour) {
 		"args":  map[string]any{"lrsn0": b.Lrsn0, "wb": b.Wb, "supis": supis, "subs": subs, "url": chf_context.GetSelf().Url, "sink": env.SinkURL},
 		"state": d.project(b),
 	})
+	fileSum := func() map[string]string {
+		out := map[string]string{}
+		for _, u := range b.Ues {
+			raw, err := os.ReadFile("/tmp/" + d.supi(u) + ".cdr")
+			if err != nil {
+				out[u] = "-"
+			} else {
+				out[u] = fmt.Sprintf("%d:%x", len(raw), sha1.Sum(raw))
+			}
+		}
+		return out
+	}
 	for si := range b.Steps {
 		st := &b.Steps[si]
 		seq++
+		filesBefore := fileSum()
 		if st.Tz != nil {
 			tzNow = *st.Tz
 			time.Local = time.FixedZone("vf", tzNow)
@@ -475,8 +490,16 @@ func (d *SeqDriver) runOne(b *Behaviour) {
 			nts = append(nts, map[string]any{"path": n.Path, "rgs": rgs})
 		}
 		res["notifs"] = nts
+		// which subscribers' CDR files were (re)written or removed by this step
+		filechg := []string{}
+		for u, sum := range fileSum() {
+			if filesBefore[u] != sum {
+				filechg = append(filechg, u)
+			}
+		}
+		sort.Strings(filechg)
 		d.emit(map[string]any{
-			"trace": b.ID, "seq": seq, "action": st.A, "args": args, "result": res, "state": d.project(b),
+			"trace": b.ID, "seq": seq, "action": st.A, "args": args, "result": res, "filechg": filechg, "state": d.project(b),
 		})
 		if res["timeout"] == true {
 			// the subscriber is wedged; nothing more can be learnt from this behaviour
